@@ -324,6 +324,24 @@ def check_datagroup_histories(run, tree):
         ok = keys == ["a", "b"] and items == [("a", "a"), ("b", "b")] and vals == ["a", "b"] and it == ["a", "b"] and ln == 2 and got == "a" and miss == "dflt" and has
         return ok, "keys %s items %s values %s iter %s len %s get %s/%s in %s" % (keys, items, vals, it, ln, got, miss, has)
 
+    @hist("a group whose members have zero rows still has a shape: a member of another length is rejected",
+          "after an all-False mask / empty slice the group accepts any length (its shape read as () because an empty member is falsy)")
+    def h14(g, do):
+        do("set", "a", A("a", 0))
+        do("set", "b", A("b", 0))
+        r = do("set", "c", A("c", 3), expect_raise="ValueError")
+        ok2 = do("set", "d", A("d", 0))
+        st = group_state(tree, hooks, g)
+        return r and list(st) == ["a", "b", "d"], "state %s" % {k: v[1] for k, v in st.items()}
+
+    @hist("replacing the first-inserted member keeps the gate", "group[first key] = <another length> while other members exist is accepted (the first member used as the reference is excluded from its own check)")
+    def h15(g, do):
+        do("set", "a", A("a", 5))
+        do("set", "b", A("b", 5))
+        do("set", "c", A("c", 5))
+        r = do("set", "a", A("a2", 3), expect_raise="ValueError")
+        return r and {k: v[1] for k, v in group_state(tree, hooks, g).items()} == {"a": (5,), "b": (5,), "c": (5,)}, "state %s" % {k: v[1] for k, v in group_state(tree, hooks, g).items()}
+
     def construct_group(*args, **kwargs):
         ev = _ev(tree, hooks, DG_Q + ".__init__")
         try:
